@@ -123,7 +123,38 @@ func c02PanicShape(a, b string) (string, bool) {
 
 // refsShape classifies a difference of a referrer-set call about target id.
 // typ filters the referrer type ("" = all).
+//
+// One labelled input class is folded into a single shape: an area that exists
+// in both worlds and is a member of a relation. The compact index stores the
+// relations of such an area with one encoding and reads them back with another
+// (Area.Marshal / Area.Unmarshal), so the relations come back nil (the caller
+// panics), wrong, or incomplete depending on the numbers involved. All three
+// are "compact-wrong-relations-for-area-member"; nothing else is folded in.
 func (g *c02Graph) refsShape(id b6.FeatureID, typ string, a, b string) string {
+	raw := g.refsShapeRaw(id, typ, a, b)
+	if id.Type != b6.FeatureTypeArea || !g.present[id] {
+		return raw
+	}
+	member := false
+	for _, f := range g.direct[id] {
+		if f.Type == b6.FeatureTypeRelation && g.present[f] {
+			member = true
+		}
+	}
+	if !member {
+		return raw
+	}
+	switch {
+	case strings.HasPrefix(raw, "compact-yields-"),
+		strings.HasPrefix(raw, "compact-panics@") && strings.Contains(raw, "nil_pointer_dereference"),
+		raw == "compact-misses-direct-referrer:area<-relation",
+		raw == "compact-invents-referrer:area<-relation":
+		return "compact-wrong-relations-for-area-member"
+	}
+	return raw
+}
+
+func (g *c02Graph) refsShapeRaw(id b6.FeatureID, typ string, a, b string) string {
 	if s, ok := c02PanicShape(a, b); ok {
 		// labelled shape: the compact world hands out a nil relation for an area that is a
 		// member of a relation, and the caller dies on it
